@@ -115,7 +115,9 @@ def parse_errors(stderr, gen_text, fname):
     """split rustc-style diagnostics; return (semantic_failures, other_errors)"""
     idx = fn_index(gen_text)
     lines = gen_text.split("\n")
-    blocks = re.split(r"\n(?=error)", "\n" + stderr)
+    # top-level diagnostics: errors, and the "automatically chose triggers" notes, which are diagnostics of their own
+    # (their locations must not be attributed to the error printed before them)
+    blocks = re.split(r"\n(?=error|note: automatically chose triggers|note: Verus printed one or more)", "\n" + stderr)
     sem, other = [], []
     for b in blocks:
         b = b.strip()
